@@ -138,11 +138,19 @@ func runC10(seed uint64, tier, dir, replay string) error {
 	}
 	for t := 0; t < trials; t++ {
 		nf := 1 + rng.Intn(40)
+		long := t%4 == 3 // more frames than the pool has buffers: every buffer is recycled
+		if long {
+			nf = 60 + rng.Intn(140)
+		}
 		sizes := make([]int, nf)
 		var stream []byte
 		frames := make([][]byte, nf)
 		for i := range sizes {
-			switch rng.Intn(6) {
+			c := rng.Intn(6)
+			if long && c < 3 {
+				c = 3
+			}
+			switch c {
 			case 0:
 				sizes[i] = 8
 			case 1:
